@@ -739,6 +739,31 @@ func (f *frame) expr(x ast.Expr, e *env) Val {
 			}
 		}
 		outOfFragment("%s: index expression %s", f.name, types.ExprString(x))
+	case *ast.SliceExpr:
+		base := f.expr(x.X, e)
+		if s, ok := base.(cv); ok && s.v.Kind() == constant.String && !x.Slice3 {
+			str := constant.StringVal(s.v)
+			lo, hi := 0, len(str)
+			if x.Low != nil {
+				if n, ok := valInt(f.expr(x.Low, e)); ok {
+					lo = int(n)
+				} else {
+					outOfFragment("%s: slice bound", f.name)
+				}
+			}
+			if x.High != nil {
+				if n, ok := valInt(f.expr(x.High, e)); ok {
+					hi = int(n)
+				} else {
+					outOfFragment("%s: slice bound", f.name)
+				}
+			}
+			if lo < 0 || hi > len(str) || lo > hi {
+				outOfFragment("%s: slice bounds out of range in %s", f.name, types.ExprString(x))
+			}
+			return cv{constant.MakeString(str[lo:hi])}
+		}
+		outOfFragment("%s: slice expression %s", f.name, types.ExprString(x))
 	case *ast.FuncLit:
 		outOfFragment("%s: function literal", f.name)
 	}
@@ -1158,6 +1183,47 @@ func builtinModel(key string, recv Val, args []Val) (Val, bool) {
 		b, ok2 := str(args[1])
 		if ok1 && ok2 {
 			return mk(strings.HasSuffix(a, b)), true
+		}
+	case "strings.TrimLeft", "strings.TrimRight", "strings.Trim":
+		a, ok1 := str(args[0])
+		b, ok2 := str(args[1])
+		if ok1 && ok2 {
+			switch key {
+			case "strings.TrimLeft":
+				return cv{constant.MakeString(strings.TrimLeft(a, b))}, true
+			case "strings.TrimRight":
+				return cv{constant.MakeString(strings.TrimRight(a, b))}, true
+			}
+			return cv{constant.MakeString(strings.Trim(a, b))}, true
+		}
+	case "strings.Contains", "strings.EqualFold", "strings.ContainsAny":
+		a, ok1 := str(args[0])
+		b, ok2 := str(args[1])
+		if ok1 && ok2 {
+			switch key {
+			case "strings.Contains":
+				return mk(strings.Contains(a, b)), true
+			case "strings.ContainsAny":
+				return mk(strings.ContainsAny(a, b)), true
+			}
+			return mk(strings.EqualFold(a, b)), true
+		}
+	case "strings.Index", "strings.IndexByte", "strings.IndexAny", "strings.Count":
+		a, ok1 := str(args[0])
+		if ok1 {
+			if b, ok2 := str(args[1]); ok2 {
+				switch key {
+				case "strings.Index":
+					return cv{constant.MakeInt64(int64(strings.Index(a, b)))}, true
+				case "strings.IndexAny":
+					return cv{constant.MakeInt64(int64(strings.IndexAny(a, b)))}, true
+				case "strings.Count":
+					return cv{constant.MakeInt64(int64(strings.Count(a, b)))}, true
+				}
+			}
+			if n, ok2 := valInt(args[1]); ok2 && key == "strings.IndexByte" {
+				return cv{constant.MakeInt64(int64(strings.IndexByte(a, byte(n))))}, true
+			}
 		}
 	case "strings.ToUpper":
 		if a, ok := str(args[0]); ok {
